@@ -588,15 +588,11 @@ class ProdParser:
                     break
 
                 except ParseError as e:
-                    # needed???
-                    if stopIfNoMoreMatch:  # and token:
-                        # print "\t2stopIfNoMoreMatch", e, token, prod
-                        tokenizer.push(token)
-                        stopall = True
-
-                    else:
-                        wellformed = False
-                        self._log.error(f'{name}: {e}: {token!r}')
+                    # a mandatory part of a production already begun is
+                    # missing: this is a syntax error even if a token which
+                    # matches nothing may be handed back (stopIfNoMoreMatch)
+                    wellformed = False
+                    self._log.error(f'{name}: {e}: {token!r}')
                     break
 
                 else:
